@@ -28,7 +28,8 @@
   * `canonical_*_bounded` — the constructors evaluated by the kernel against the model's own
     `isPerfectMatchingOfGraph` on small instances.
 
-  STATED, NOT PROVED:
+  STATED, NOT PROVED (in this file) — AUDIT: every item below is NOW PROVED, for all sizes, in
+  Props/C02/SmwpmExists2.lean / Props/C02/SmwpmEven.lean (the theorem names follow each item):
   * infinite bias with `p ≠ 0` (`etaNone ∧ ¬pZero`), both codes: row nodes may only be matched within their row,
     column nodes within their column, so one pairing cannot serve both orientations and `canonicalMatching` does not
     cover it.  Planar: a perfect matching exists iff every line WITHOUT a virtual plaquette (rows `y` even,
@@ -37,15 +38,29 @@
     (a Y flips two plaquettes of such a line), false e.g. for a single X error, where qecsim raises 'Cluster is not a
     closed loop'.  Toric: iff every row and every column holds an even number of defects.  (For the 3×3 planar code
     every line has a virtual plaquette.)
+      → `smwpm_planar_graph_has_pm_infinite_bias` (`LineEvenP`), `smwpm_toric_graph_has_pm_infinite_bias`
+        (`LineEvenT`), `smwpm_planar_line_even_of_yonly`, `smwpm_toric_line_even_of_yonly`,
+        `smwpm_*_never_fails_infinite_bias`, `smwpm_*_max_cardinality_succeeds_infinite_bias` (SmwpmExists2); the
+        "iff": `smwpm_planar_pm_iff_infinite_bias`, `smwpm_toric_pm_iff_infinite_bias`; the single X error:
+        `no_pm_single_x_bounded` (SmwpmEven).
   * `XDep R C`, `AllDep R C` for all even `R, C ≥ 2` (Props/C07/RotatedToric.lean `dep_core`: every site lies in
-    exactly two plaquettes of a type; the bridge to `xorAll` of the generator rows is not written);
+    exactly two plaquettes of a type; the bridge to `xorAll` of the generator rows is not written)
+      → `xdep_all_sizes`, `alldep_all_sizes`, hence `smwpm_toric_even_x_all_sizes`,
+        `smwpm_toric_feasible_of_reachable_all_sizes` (SmwpmExists2);
   * `FeasibleT` from reachability at finite bias, `p ≠ 0`, `q ∈ {0,1}`: every row is itself a syndrome
-    (`reachable_iff_zero/one`), so `even_selected` applied to the one-row arrays gives the per-time-step counts;
+    (`reachable_iff_zero/one`), so `even_selected` applied to the one-row arrays gives the per-time-step counts
+      → `smwpm_toric_feasible_of_reachable_any_q`, `smwpm_toric_never_fails_finite_bias` (SmwpmExists2);
   * `Feasible` / `FeasibleT` for `p = 0` from `reachable … (supp := identity only)`: `xorAll rows = zeros`
     (`reachable_iff_mid`) gives the even counts through `xorAll_rows`; each row zero (`reachable_iff_zero/one`) gives
-    "no defects";
+    "no defects"
+      → `smwpm_planar_feasible_p_zero`, `smwpm_toric_feasible_p_zero`, `smwpm_planar_never_fails_p_zero`,
+        `smwpm_toric_never_fails_p_zero` (SmwpmExists2);
   * necessity of `Feasible` (for `p = 0` it is necessary: a defect node has only time-like neighbours at its own
-    plaquette; evaluation 3×3, T = 1: of the 256 arrays only the zero array has a perfect matching when `p = 0`).
+    plaquette; evaluation 3×3, T = 1: of the 256 arrays only the zero array has a perfect matching when `p = 0`)
+      → `smwpm_planar_feasible_necessary_p_zero`, `smwpm_toric_feasible_necessary_p_zero`,
+        `smwpm_planar_pm_iff_p_zero`, `smwpm_toric_pm_iff_p_zero`, `no_pm_p_zero_bounded` (SmwpmEven).
+  Genuinely open after the audit: nothing in this list; "`gt.mwpm` returns a maximum-cardinality matching" is C13's
+  statement and stays a hypothesis (`IsMaxCardinality`) of the `…max_cardinality…` theorems.
 -/
 import QecVerif.Props.C02.Smwpm
 import QecVerif.Props.C02.SmwpmToric
